@@ -358,6 +358,31 @@ def run(run):
             run.violation("infinite_screen:screen-handed-out-earlier-is-overwritten", dict(variant=variant, req=req, f=f, frames_changed=stale),
                           dict(kind="held", variant=variant, req=req, f=f))
     run.aux["held_frames_checked"] = n_held
+    # ---- the same short history in a process whose floating-point error handling is strict (numpy.seterr(all="raise")), and screens
+    #      smaller than their stencil depth: shape, finiteness, shift must hold there too (nothing may rely on a silenced 0*inf)
+    n_env = 0
+    for variant, req, kw in (("vk", 4, {}), ("fried", 4, dict(stencil_length_factor=2)), ("vk", 1, {}), ("vk", 2, dict(n_columns=4)), ("vk", 3, dict(n_columns=4)),
+                             ("fried", 1, {}), ("vk", 1, dict(n_columns=3))):
+        cls = ips.PhaseScreenVonKarman if variant == "vk" else ips.PhaseScreenKolmogorov
+        for strict in (False, True):
+            try:
+                with np.errstate(all="raise" if strict else "ignore"):
+                    obj = cls(req, 0.5, 0.2, 20.0, random_seed=9, **kw)
+                    prev = np.array(obj.scrn, copy=True)
+                    okh = prev.shape == (req, req)
+                    for _ in range(4):
+                        cur = np.array(obj.add_row(), copy=True)
+                        okh = okh and cur.shape == (req, req) and bool(np.isfinite(cur).all()) and np.array_equal(cur[1:], prev[:-1])
+                        prev = cur
+                why = None if okh else "shape / finiteness / one-row shift"
+            except Exception as ex:  # noqa
+                why = repr(ex)[:160]
+            n_env += 1
+            if why:
+                run.violation("infinite_screen:short-history-fails" + (":strict-floating-point-error-state" if strict else ":screen-smaller-than-stencil" if req < 4 else ""),
+                              dict(variant=variant, req=req, why=why, **kw), dict(kind="env", variant=variant, req=req, kw=kw, strict=strict))
+                break
+    run.aux["environment_histories"] = n_env
     run.aux["vk_stability"] = stab
     run.aux.update(mode_a_histories=n, mode_b_traces=len(traces), mode_b_rejected=len(rejected),
                    mode_b_events=sum(len(t["events"]) for t in traces), constructions_skipped=skipped)
@@ -377,6 +402,16 @@ def replay(run, case):
         rho, res = c04.vk_stability(ips, case["n"], case["ncol"], PARAMS[0])
         if rho is not None and (not (rho < 1 - 1e-9) or res > 1e-4):
             run.violation("infinite_screen:vk-recursion-not-stable-at-von-karman-covariance", dict(rho=rho, res=res), case)
+        return
+    if case.get("kind") == "env":
+        cls = ips.PhaseScreenVonKarman if case["variant"] == "vk" else ips.PhaseScreenKolmogorov
+        try:
+            with np.errstate(all="raise" if case["strict"] else "ignore"):
+                obj = cls(case["req"], 0.5, 0.2, 20.0, random_seed=9, **case["kw"])
+                for _ in range(4):
+                    obj.add_row()
+        except Exception as ex:  # noqa
+            run.violation("infinite_screen:short-history-fails", dict(why=repr(ex)[:160]), case)
         return
     if case.get("kind") == "held":
         obj = build(ips, case["variant"], case["req"], case["f"], PARAMS[0], 31 + run.seed % 1000)
